@@ -234,7 +234,7 @@ func (w *World) WaitHeld(timeout time.Duration, done <-chan struct{}) (writeHeld
 		default:
 		}
 		for _, c := range w.conns {
-			if c != nil && (c.writeHeld || c.heldReply != nil) {
+			if c != nil && !c.closed && (c.writeHeld || c.heldReply != nil) {
 				return true
 			}
 		}
@@ -243,10 +243,10 @@ func (w *World) WaitHeld(timeout time.Duration, done <-chan struct{}) (writeHeld
 	w.mu.Lock()
 	defer w.mu.Unlock()
 	for _, c := range w.conns {
-		if c != nil && c.writeHeld {
+		if c != nil && !c.closed && c.writeHeld {
 			writeHeld = true
 		}
-		if c != nil && c.heldReply != nil {
+		if c != nil && !c.closed && c.heldReply != nil {
 			replyHeld = true
 		}
 	}
@@ -281,7 +281,13 @@ func (w *World) ReleaseAll() {
 func (w *World) Settle(timeout time.Duration) bool {
 	return w.waitFor(timeout, func() bool {
 		for _, c := range w.conns {
-			if c == nil || c.closed {
+			if c == nil {
+				continue
+			}
+			if c.closed {
+				if c.writing { // a parked Write has not yet noticed the close
+					return false
+				}
 				continue
 			}
 			if c.doomed || !c.readerWaiting || len(c.rbuf) > 0 || c.writing {
@@ -325,6 +331,7 @@ type Conn struct {
 }
 
 type reply struct {
+	silent bool
 	data  []byte
 	fault Kind
 	chunk int
@@ -338,6 +345,9 @@ func (c *Conn) reqPlan(j int) ReqPlan {
 }
 
 func (c *Conn) deliver(r *reply) {
+	if r.silent {
+		return
+	}
 	c.rbuf = append(c.rbuf, r.data...)
 	if r.chunk > 0 {
 		c.chunk = r.chunk
@@ -485,9 +495,9 @@ func (c *Conn) Write(b []byte) (int, error) {
 		r.data = append(r.data, data...)
 		r.fault = pl.RKind
 	case RSilent:
-		r = nil
+		r = &reply{silent: true}
 	}
-	if r != nil {
+	{
 		if w.holdReply {
 			w.holdReply = false
 			c.heldReply = r
@@ -541,15 +551,40 @@ func ClientGoroutines() (readloops, writeloops int) {
 	return
 }
 
-// WaitNoClientGoroutines polls until no connection loop is alive or the timeout expires.
-func WaitNoClientGoroutines(timeout time.Duration) (readloops, writeloops int) {
+// WaitClientGoroutines polls until no more than the given numbers of connection loops are alive
+// or the timeout expires; returns the excess.
+func WaitClientGoroutines(base1, base2 int, timeout time.Duration) (readloops, writeloops int) {
 	deadline := time.Now().Add(timeout)
 	for {
 		readloops, writeloops = ClientGoroutines()
-		if readloops+writeloops == 0 || time.Now().After(deadline) {
+		readloops -= base1
+		writeloops -= base2
+		if (readloops <= 0 && writeloops <= 0) || time.Now().After(deadline) {
+			if readloops < 0 {
+				readloops = 0
+			}
+			if writeloops < 0 {
+				writeloops = 0
+			}
 			return
 		}
 		runtime.Gosched()
 		time.Sleep(200 * time.Microsecond)
 	}
+}
+
+// ReqCounts returns, per dial index, the number of Writes attempted on that connection
+// (-1 for a failed dial).
+func (w *World) ReqCounts() []int {
+	w.mu.Lock()
+	defer w.mu.Unlock()
+	out := make([]int, len(w.conns))
+	for i, c := range w.conns {
+		if c == nil {
+			out[i] = -1
+		} else {
+			out[i] = c.nreq
+		}
+	}
+	return out
 }
